@@ -6,6 +6,7 @@ EXTENDS Controller, Json
 
 Q_Lens == {3, 8, 20, 60}
 Q_Lims == {2, 4, 8}
+S_Lims == {2, 4, 8, -8}           \* one sign-encoded limit in the scripted (replayed) runs
 P_Lens == {3, 8, 20}
 
 \* environment of the exhaustive configs: flat, up grade, down grade (table built for the same resistance),
